@@ -21,6 +21,18 @@
       deadlocked.  `table_no_deadlock` instantiates it: threads whose lock waits happen at
       acquisition sites recorded in the table cannot deadlock.  `write_section_bounded`: a write's
       critical sections take at most two ACK timeouts (from C11), so a lock is never held forever.
+      `waitfor_no_deadlock` / `table_waitfor_no_deadlock` — the wait-for graph with ALL three ways a
+      thread of this library blocks: lock waits, queue waits (the writer waiting for the ACK under the
+      channels lock, the stream thread waiting for a stream frame, the application waiting for samples
+      on a subscriber queue) and `Thread.join` (`thread_stop` from `stream_stop` / `disconnect`).  From
+      decided facts of the table (`wait_table_facts`: ranked nesting; whoever waits on a queue while
+      holding a lock waits for a producer that takes no lock; nobody joins while holding a lock; joined
+      threads are library thread bodies; a library thread body never waits without a timeout and never
+      joins; every queue waited on without a timeout has a producer) no set of threads whose states are
+      explained by the table (`Fits`) is deadlocked — and the timeout of the ACK wait under the channels
+      lock is NOT relied upon for that.  `lock_held_queue_wait_bounded` (from `blockingBounded`): a
+      queue wait made while holding a lock does have a timeout, so with `write_section_bounded` a lock
+      is released after a bounded time.
   (c) `atomic_reduction_*` — because of (a), a lock-level schedule of application threads issuing
       configuration calls is an interleaving (merge) of their atomic operations, i.e. ONE operation
       list of the configuration machine; C07's theorems quantify over ALL operation lists, hence
@@ -30,7 +42,32 @@
       `channels_write` is one atomic step (exact for devices without divider support, where it is
       one `with` block), and `LockSteps.AOp` lists, in which the divider half and the enable half of
       a write are separate atomic steps between which other threads may run (devices with divider
-      support: two `with` blocks).
+      support: two `with` blocks).  `ch_enable_all` / `ch_disable_all` / `channels_default_cfg` are NOT
+      atomic at this level: they are `chmax` one-channel blocks (plus one divider block), between which
+      other threads run (`LockSteps.enableAllBlock` …); run back to back they are C07's atomic
+      `enableAll` / `disableAll` / `defaultCfg` (`setall_refines_config`), as the blocks of a write are
+      C07's `write` (`lockstep_refines_config`).
+      `atomic_reduction_final_weak*`: the final-state clause under the weaker (necessary) condition —
+      in the MERGE every setter is followed by an acknowledged write (equivalently: the last setter is);
+      it is not required that every thread ends with a write.
+  (d) `xreduction_*` — the same with subscribe / unsubscribe / the stream thread's fan-out in the
+      schedule (`LockSteps.XOp`: one critical section of the channels lock OR of the queue lock per
+      step; the stream thread's fan-out of a frame is one enabled check per sample under the channels
+      lock and then one delivery block under the queue lock).  `xreduction_config`: the client /
+      device component of every such schedule is the lock-level configuration run of its
+      configuration blocks, so (`xreduction_reported`, `xreduction_final_weak`) the answers of
+      `ch_is_enabled` — including the ones the stream thread gets for its filter — equal the device's
+      state at that moment and the final state is the last requested one.  `xreduction_commute`:
+      subscriber-side sections commute with every configuration block (same states, same outputs in
+      either order); the enabled check commutes with every block except the enable half of a write:
+      `ch_is_enabled` is the only interaction.  `delivery_sound`: what a delivery puts on a queue is a
+      non-empty group of samples of a channel the queue is subscribed to, each of which passed its check.
+  (e) `lockstep_any_outcome_safe`, `xreduction_any_outcome_safe`, `lockstep_doubt_view` — devices that
+      reject, lose or do not acknowledge requests (and devices without ACK support): whatever the
+      outcomes, no well-formed call raises, every critical section lasts at most one ACK timeout, and
+      on a device with ACK support the answer of `ch_is_enabled` equals the device's state whenever no
+      request of that kind is in doubt.  (The `ch_is_enabled == device` and final-state clauses of the
+      property are about acknowledging devices; for the others only these are claimed.)
 
   WHAT RESTS ON THE RUNTIME (this property is PARTIAL in that sense).  Not proved, and outside any
   model here: that `threading.Lock` provides mutual exclusion and is eventually granted (fairness),
@@ -49,6 +86,8 @@ import NxsModel.Locks
 import NxsModel.LockSteps
 import NxsModel.Gen.Locks
 import NxsModel.Lemmas.Locks
+import NxsModel.Lemmas.LockFan
+import NxsModel.Lemmas.LockWait
 import NxsModel.Props.C07
 namespace Nxs.C12
 open Nxs Nxs.Locks Nxs.LockSteps Nxs.Config Nxs.LocksLemmas
@@ -104,6 +143,50 @@ theorem write_section_bounded (c : Client) (d : Device) (oDiv oEn : Outcome) :
     (writeDiv c d oDiv).2.2.time ≤ 10 ∧ (writeEnable c d oEn).2.2.time ≤ 10 ∧
     (channelsWrite c d oDiv oEn).2.2.time ≤ 20 :=
   ⟨writeDiv_time c d oDiv, writeEnable_time c d oEn, channelsWrite_time c d oDiv oEn⟩
+
+/-- the decided facts of the generated table that the extended wait-for argument uses -/
+theorem wait_table_facts :
+    nestingRespectsRank Gen.Locks.table = true ∧ producersLockFree Gen.Locks.table = true ∧
+    joinsLockFree Gen.Locks.table = true ∧ joinTargetsAreBodies Gen.Locks.table = true ∧
+    bodiesNeverWaitForever Gen.Locks.table = true ∧ foreverGetsProduced Gen.Locks.table = true ∧
+    subProduced Gen.Locks.table = true := by
+  decide +kernel
+
+/-- NO DEADLOCK with lock waits, queue waits and joins, for any table with these facts and any number of
+    threads whose states the table explains: no non-empty set of threads exists in which every thread waits
+    for a lock held inside the set, or joins a thread of the set, or waits — without timeout, or while
+    holding a lock — on a queue all of whose producers are in the set. -/
+theorem waitfor_no_deadlock (tbl : Table)
+    (h1 : nestingRespectsRank tbl = true) (h2 : producersLockFree tbl = true) (h3 : joinsLockFree tbl = true)
+    (h4 : joinTargetsAreBodies tbl = true) (h5 : bodiesNeverWaitForever tbl = true)
+    (h6 : foreverGetsProduced tbl = true) (h7 : subProduced tbl = true)
+    (S : List XThr) (hfit : ∀ t ∈ S, Fits tbl t) : ¬ WDeadlocked (producersOf tbl) S :=
+  waitfor_not_deadlocked ⟨h1, h2, h3, h4, h5, h6, h7⟩ S hfit
+
+/-- … instantiated with the table extracted from the current sources -/
+theorem table_waitfor_no_deadlock (S : List XThr) (hfit : ∀ t ∈ S, Fits Gen.Locks.table t) :
+    ¬ WDeadlocked (producersOf Gen.Locks.table) S :=
+  have h := wait_table_facts
+  waitfor_no_deadlock _ h.1 h.2.1 h.2.2.1 h.2.2.2.1 h.2.2.2.2.1 h.2.2.2.2.2.1 h.2.2.2.2.2.2 S hfit
+
+/-- a queue wait made at a site of the generated table while holding a lock has a timeout (so, with
+    `write_section_bounded`, the lock is released after a bounded time) -/
+theorem lock_held_queue_wait_bounded (t : XThr) (hfit : Fits Gen.Locks.table t) (q : QueueId) (b : Bool)
+    (hw : t.waits = some (.queue q b)) (hne : t.holds ≠ []) : b = true := by
+  rcases hfit.queueSite q b hw with ⟨s, hs, hk, -, hb, hheld⟩ | ⟨-, h0, -⟩
+  · have hbb := List.all_eq_true.mp lock_table_facts.2.2.2 s hs
+    have hsne : s.held.isEmpty = false := by
+      cases hh : t.holds with
+      | nil => exact absurd hh hne
+      | cons h r =>
+        have := hheld h (by rw [hh]; exact List.mem_cons_self ..)
+        cases hs' : s.held with
+        | nil => rw [hs'] at this; nomatch this
+        | cons _ _ => rfl
+    rw [hsne, hk] at hbb
+    rw [← hb]
+    simpa using hbb
+  · exact absurd h0 hne
 
 /-! ## (c) every lock-level schedule is one operation list -/
 
@@ -187,11 +270,11 @@ theorem atomic_reduction_reported_lockstep (d0 : Device) (flags : Nat) (progs : 
 
 /-- … and once all threads are done, each having ended with the acknowledged block(s) of a write,
     device = requested = reported — although other threads' steps may have run between the two
-    halves of any write -/
+    halves of any write (on a device without channels a write has no block at all) -/
 theorem atomic_reduction_final_lockstep (d0 : Device) (flags : Nat) (progs : List (List AOp)) (m : List AOp)
     (hm : Interleaving progs m) (hd : C07.WFDev d0) (hne : progs ≠ [])
     (hshape : ∀ p ∈ progs, ∃ init, (∀ x ∈ init, Acked x) ∧
-      p = init ++ writeBlock (Info.divSupported flags) .ack .ack) :
+      p = init ++ writeBlock d0.en.length (Info.divSupported flags) .ack .ack) :
     let r := arun (Client.init d0 flags) d0 m
     r.2.1.en = r.1.enNew ∧ r.1.enNow = r.1.enNew ∧ r.1.copyEn = r.1.enNew ∧
     (Info.divSupported flags = true →
@@ -206,14 +289,24 @@ theorem atomic_reduction_final_lockstep (d0 : Device) (flags : Nat) (progs : Lis
     · exact hi x h
     · unfold writeBlock at h
       split at h
-      · rcases List.mem_cons.mp h with rfl | h
-        · exact rfl
+      · nomatch h
+      · split at h
+        · rcases List.mem_cons.mp h with rfl | h
+          · exact rfl
+          · rw [List.mem_singleton.mp h]; exact rfl
         · rw [List.mem_singleton.mp h]; exact rfl
-      · rw [List.mem_singleton.mp h]; exact rfl
+  have hS := arun_ackState h0 m (hm.forall Acked hack)
+  by_cases hn : d0.en.length = 0
+  · -- no channels: every vector is empty
+    have hcn : (arun (Client.init d0 flags) d0 m).1.n = 0 := (arun_n _ _ _).trans hn
+    have hen := enSynced_zero hS.inv hcn
+    have hdv := divSynced_zero hS.inv hcn
+    exact ⟨hen.1, hen.2.1, hen.2.2, fun _ => ⟨hdv.1, hdv.2.1, hdv.2.2⟩, fun hs => hS.dev hs⟩
   have hlast : ∀ p ∈ progs, p ≠ [] → p.getLast? = some (AOp.wEn .ack) := by
     intro p hp _
     obtain ⟨init, -, rfl⟩ := hshape p hp
     unfold writeBlock
+    rw [if_neg hn]
     split
     · exact getLast?_append_wEn init [.wDiv .ack] (.wEn .ack)
     · exact List.getLast?_concat ..
@@ -221,9 +314,9 @@ theorem atomic_reduction_final_lockstep (d0 : Device) (flags : Nat) (progs : Lis
   have hp0ne : p0 ≠ [] := by
     obtain ⟨init, -, rfl⟩ := hshape p0 hp0
     unfold writeBlock
+    rw [if_neg hn]
     split <;> simp
   have hen := final_en hm h0 hack hlast (Or.inl ⟨p0, hp0, hp0ne⟩)
-  have hS := arun_ackState h0 m (hm.forall Acked hack)
   refine ⟨hen.1, hen.2.1, hen.2.2, fun hs => ?_, fun hs => hS.dev hs⟩
   have h0' : AckState true d0.div (Client.init d0 flags) d0 := by
     have := h0
@@ -232,26 +325,217 @@ theorem atomic_reduction_final_lockstep (d0 : Device) (flags : Nat) (progs : Lis
   have hcl : ∀ p ∈ progs, DivClosed p := by
     intro p hp
     obtain ⟨init, -, rfl⟩ := hshape p hp
-    rw [hs]
+    unfold writeBlock
+    rw [if_neg hn, hs]
     exact divClosed_append init
   have hex : ∃ t ∈ progs, ∃ x ∈ t, isWDiv x = true := by
     obtain ⟨init, -, e⟩ := hshape p0 hp0
-    rw [hs] at e
+    unfold writeBlock at e
+    rw [if_neg hn, hs] at e
     exact ⟨p0, hp0, .wDiv .ack, by rw [e]; exact List.mem_append_right _ (List.mem_cons_self ..), rfl⟩
   exact final_div hm h0' hack hcl (Or.inl hex)
+
+/-- THE WEAKER CONDITION (configuration machine of C07): it is enough that the merge — not every thread —
+    ends with an acknowledged write.  (At this granularity every op is a setter or a write, so "the last
+    setter is followed by a write" says exactly that.) -/
+theorem atomic_reduction_final_weak (d0 : Device) (flags : Nat) (progs : List (List Op)) (m : List Op)
+    (hm : Interleaving progs m) (hd : C07.WFDev d0) (ha : ∀ p ∈ progs, C07.AllAck p)
+    (hend : ∃ init, m = init ++ [.write .ack .ack]) :
+    let r := C07.after d0 flags m
+    r.2.1.en = r.1.enNew ∧ r.1.enNow = r.1.enNew ∧ r.1.copyEn = r.1.enNew ∧
+    (Info.divSupported flags = true →
+      r.2.1.div = r.1.divNew ∧ r.1.divNow = r.1.divNew ∧ r.1.copyDiv = r.1.divNew) ∧
+    (Info.divSupported flags = false → r.2.1.div = d0.div) := by
+  obtain ⟨init, rfl⟩ := hend
+  have hall : ∀ op ∈ init ++ [Op.write .ack .ack], AckOp op :=
+    hm.forall AckOp (fun p hp => (allAck_iff p).mp (ha p hp))
+  have hi : C07.AllAck init := (allAck_iff _).mpr (fun op ho => hall op (List.mem_append_left _ ho))
+  exact C07.write_syncs d0 flags init hd hi
+
+/-- THE WEAKER CONDITION at the granularity of the `with` blocks: for every merge of the threads' lock-level
+    steps in which every enable setter is followed — anywhere later in the merge, by any thread — by an
+    acknowledged enable half of a write, and (with divider support) every divider setter by an acknowledged
+    divider half: device = requested = reported once all threads are done.  Queries and the halves of
+    other writes may follow the last write; threads need not end with a write. -/
+theorem atomic_reduction_final_weak_lockstep (d0 : Device) (flags : Nat) (progs : List (List AOp)) (m : List AOp)
+    (hm : Interleaving progs m) (hd : C07.WFDev d0) (ha : ∀ p ∈ progs, ∀ x ∈ p, Acked x)
+    (hen : EnClosed m) (hdiv : Info.divSupported flags = true → DivClosed m) :
+    let r := arun (Client.init d0 flags) d0 m
+    r.2.1.en = r.1.enNew ∧ r.1.enNow = r.1.enNew ∧ r.1.copyEn = r.1.enNew ∧
+    (Info.divSupported flags = true →
+      r.2.1.div = r.1.divNew ∧ r.1.divNow = r.1.divNew ∧ r.1.copyDiv = r.1.divNew) ∧
+    (Info.divSupported flags = false → r.2.1.div = d0.div) := by
+  intro r
+  have h0 := init_ackState d0 flags hd
+  have hall : ∀ x ∈ m, Acked x := hm.forall Acked ha
+  have hS := arun_ackState h0 m hall
+  have he := final_en_closed m h0 hall hen (Or.inr (init_enSynced d0 flags))
+  refine ⟨he.1, he.2.1, he.2.2, fun hs => ?_, fun hs => hS.dev hs⟩
+  have h0' : AckState true d0.div (Client.init d0 flags) d0 := by
+    have := h0
+    rw [hs] at this
+    exact this
+  exact final_div_closed m h0' hall (hdiv hs) (Or.inr (init_divSynced d0 flags))
+
+/-- the condition of `atomic_reduction_final_lockstep` (every thread ends with the blocks of a write)
+    is the special case: spelled out for ONE thread followed by anything without setters -/
+theorem enClosed_of_last_write (pre post : List AOp) (hpost : ∀ x ∈ post, isEnSetter x = false) :
+    EnClosed (pre ++ AOp.wEn .ack :: post) :=
+  enClosed_intro pre post _ rfl hpost
 
 /-- run back to back, the blocks of a write are `Config`'s write: the lock-level machine refines
     the configuration machine of C07 -/
 theorem lockstep_refines_config (d0 : Device) (flags : Nat) (ops : List Op) (hd : C07.WFDev d0)
     (a b : Outcome) :
     let r := C07.after d0 flags ops
-    (arun r.1 r.2.1 (writeBlock r.1.divSupported a b)).1 = (step r.1 r.2.1 (.write a b)).1 ∧
-    (arun r.1 r.2.1 (writeBlock r.1.divSupported a b)).2.1 = (step r.1 r.2.1 (.write a b)).2.1 := by
+    (arun r.1 r.2.1 (writeBlock r.1.n r.1.divSupported a b)).1 = (step r.1 r.2.1 (.write a b)).1 ∧
+    (arun r.1 r.2.1 (writeBlock r.1.n r.1.divSupported a b)).2.1 = (step r.1 r.2.1 (.write a b)).2.1 := by
   intro r
   have hI : Inv r.1 r.2.1 :=
     (run_induct (fun c d => Inv c d) (fun _ => True) ops (fun c d op _ hP => ⟨step_inv hP op, trivial⟩)
       (Client.init d0 flags) d0 (init_inv d0 flags hd)).1
   exact astep_write hI a b
+
+/-- … and so are the one-channel blocks of `ch_enable_all` / `ch_disable_all` / `channels_default_cfg` the atomic
+    `enableAll` / `disableAll` / `defaultCfg` of C07 when nobody runs in between (client state; the device is
+    not touched) -/
+theorem setall_refines_config (d0 : Device) (flags : Nat) (ops : List Op) (hd : C07.WFDev d0) :
+    let r := C07.after d0 flags ops
+    ((arun r.1 r.2.1 (enableAllBlock r.1.n)).1 = (step r.1 r.2.1 .enableAll).1 ∧ (arun r.1 r.2.1 (enableAllBlock r.1.n)).2.1 = r.2.1) ∧
+    ((arun r.1 r.2.1 (disableAllBlock r.1.n)).1 = (step r.1 r.2.1 .disableAll).1 ∧ (arun r.1 r.2.1 (disableAllBlock r.1.n)).2.1 = r.2.1) ∧
+    ((arun r.1 r.2.1 (defaultCfgBlock r.1.n)).1 = (step r.1 r.2.1 .defaultCfg).1 ∧ (arun r.1 r.2.1 (defaultCfgBlock r.1.n)).2.1 = r.2.1) := by
+  intro r
+  have hI : Inv r.1 r.2.1 :=
+    (run_induct (fun c d => Inv c d) (fun _ => True) ops (fun c d op _ hP => ⟨step_inv hP op, trivial⟩)
+      (Client.init d0 flags) d0 (init_inv d0 flags hd)).1
+  exact ⟨(setall_blocks_refine hI).1, (setall_blocks_refine hI).2, defaultCfg_blocks_refine hI⟩
+
+/-! ## (d) subscribe / unsubscribe / fan-out in the schedule -/
+
+/-- an extended step all of whose requests are acknowledged -/
+def XAcked (op : XOp) : Prop := ∀ a, cfgOf op = some a → Acked a
+
+private theorem xacked_filter {m : List XOp} (h : ∀ x ∈ m, XAcked x) : ∀ a ∈ m.filterMap cfgOf, Acked a := by
+  intro a ha
+  obtain ⟨x, hx, hxa⟩ := List.mem_filterMap.mp ha
+  exact h x hx a hxa
+
+/-- THE REDUCTION: for every schedule of critical sections of both locks, the client / device component is
+    the lock-level configuration run of the schedule's configuration blocks (the stream thread's enabled
+    checks being queries): subscriptions, unsubscriptions and deliveries are invisible to it -/
+theorem xreduction_config (d0 : Device) (flags : Nat) (m : List XOp) :
+    (xrun (XState.init d0 flags) m).1.c = (arun (Client.init d0 flags) d0 (m.filterMap cfgOf)).1 ∧
+    (xrun (XState.init d0 flags) m).1.d = (arun (Client.init d0 flags) d0 (m.filterMap cfgOf)).2.1 :=
+  xrun_cfg (XState.init d0 flags) m
+
+/-- at every point `k` of every merge of the threads' sections (application threads configuring, writing,
+    subscribing, unsubscribing; the stream thread fanning out), on an acknowledging device: the answer of
+    `ch_is_enabled` / `ch_div_get` equals the device's state — in particular the answer the stream thread
+    gets for its filter if the next section is its enabled check -/
+theorem xreduction_reported (d0 : Device) (flags : Nat) (progs : List (List XOp)) (m : List XOp)
+    (hm : Interleaving progs m) (hd : C07.WFDev d0) (ha : ∀ p ∈ progs, ∀ x ∈ p, XAcked x) (k : Nat) :
+    let r := (xrun (XState.init d0 flags) (m.take k)).1
+    (∀ ch, isEnabled r.c ch = r.d.en.getD ch false) ∧ (∀ ch, divGet r.c ch = r.d.div.getD ch 0) ∧
+    (∀ ch, (xstep r (.fanCheck ch)).2.ans = some (r.d.en.getD ch false)) ∧
+    r.c.enNow = r.d.en ∧ r.c.copyEn = r.d.en ∧ r.c.divNow = r.d.div ∧ r.c.copyDiv = r.d.div := by
+  intro r
+  have hall : ∀ x ∈ m.take k, XAcked x := fun x hx => hm.forall XAcked ha x (List.mem_of_mem_take hx)
+  have hS := arun_ackState (init_ackState d0 flags hd) _ (xacked_filter hall)
+  obtain ⟨e1, e2⟩ := xreduction_config d0 flags (m.take k)
+  rw [← e1, ← e2] at hS
+  obtain ⟨h1, h2, h3, h4⟩ := ackState_reported hS
+  have hen : ∀ ch, isEnabled r.c ch = r.d.en.getD ch false := by
+    intro ch
+    show r.c.enNow.getD ch false = _
+    rw [h1]
+  refine ⟨hen, fun ch => ?_, fun ch => ?_, h1, h2, h3, h4⟩
+  · show r.c.divNow.getD ch 0 = _
+    rw [h3]
+  · rw [fanCheck_ans, hen]
+
+/-- once all threads are done: if in the merge every enable setter is followed by an acknowledged enable
+    half of a write (and, with divider support, every divider setter by a divider half), device = requested
+    = reported — whatever subscriptions, unsubscriptions and fan-outs are interleaved -/
+theorem xreduction_final_weak (d0 : Device) (flags : Nat) (progs : List (List XOp)) (m : List XOp)
+    (hm : Interleaving progs m) (hd : C07.WFDev d0) (ha : ∀ p ∈ progs, ∀ x ∈ p, XAcked x)
+    (hen : EnClosed (m.filterMap cfgOf)) (hdiv : Info.divSupported flags = true → DivClosed (m.filterMap cfgOf)) :
+    let r := (xrun (XState.init d0 flags) m).1
+    r.d.en = r.c.enNew ∧ r.c.enNow = r.c.enNew ∧ r.c.copyEn = r.c.enNew ∧
+    (Info.divSupported flags = true →
+      r.d.div = r.c.divNew ∧ r.c.divNow = r.c.divNew ∧ r.c.copyDiv = r.c.divNew) ∧
+    (Info.divSupported flags = false → r.d.div = d0.div) := by
+  intro r
+  obtain ⟨e1, e2⟩ := xreduction_config d0 flags m
+  have hall : ∀ a ∈ m.filterMap cfgOf, Acked a := xacked_filter (hm.forall XAcked ha)
+  have hI : Interleaving [m.filterMap cfgOf] (m.filterMap cfgOf) := by
+    generalize m.filterMap cfgOf = l
+    induction l with
+    | nil => exact .done (by simp)
+    | cons a r ih => exact .step (pre := []) ih
+  have := atomic_reduction_final_weak_lockstep d0 flags [m.filterMap cfgOf] _ hI hd
+    (fun p hp x hx => by rw [List.mem_singleton.mp hp] at hx; exact hall x hx) hen hdiv
+  show (xrun _ m).1.d.en = (xrun _ m).1.c.enNew ∧ (xrun _ m).1.c.enNow = (xrun _ m).1.c.enNew ∧
+    (xrun _ m).1.c.copyEn = (xrun _ m).1.c.enNew ∧
+    (_ → (xrun _ m).1.d.div = (xrun _ m).1.c.divNew ∧ (xrun _ m).1.c.divNow = (xrun _ m).1.c.divNew ∧
+      (xrun _ m).1.c.copyDiv = (xrun _ m).1.c.divNew) ∧ (_ → (xrun _ m).1.d.div = d0.div)
+  rw [e1, e2]
+  exact this
+
+/-- subscription, unsubscription and delivery commute with EVERY configuration block (same state and same
+    outputs in either order); the stream thread's enabled check commutes with every configuration block
+    except the enable half of a write: `ch_is_enabled` is the only interaction of the two sides -/
+theorem xreduction_commute (s : XState) (a : AOp) :
+    (∀ op, fanOnly op = true →
+      (xstep (xstep s op).1 (.cfg a)).1 = (xstep (xstep s (.cfg a)).1 op).1 ∧
+      (xstep (xstep s (.cfg a)).1 op).2 = (xstep s op).2 ∧
+      (xstep (xstep s op).1 (.cfg a)).2 = (xstep s (.cfg a)).2) ∧
+    (keepsEnNow a = true → ∀ ch,
+      (xstep (xstep s (.fanCheck ch)).1 (.cfg a)).1 = (xstep (xstep s (.cfg a)).1 (.fanCheck ch)).1 ∧
+      (xstep (xstep s (.cfg a)).1 (.fanCheck ch)).2.ans = (xstep s (.fanCheck ch)).2.ans) :=
+  ⟨fun op h => fanOnly_comm s op a h, fun h ch => fanCheck_comm s ch a h⟩
+
+/-- what a delivery puts on a queue: a non-empty group of samples of ONE channel the queue is subscribed
+    to at that moment, every one of which passed its enabled check -/
+theorem delivery_sound (s : XState) (ss : List Smp) (q : Nat) (g : List Nat)
+    (h : (q, g) ∈ (xstep s (.fanDeliver ss)).2.puts) :
+    ∃ ch, ch < s.f.subs.length ∧ q ∈ s.f.subs.getD ch [] ∧ g ≠ [] ∧
+      ∀ v ∈ g, ∃ p ∈ ss.zip s.f.pending, p.1.chan = ch ∧ p.2 = true ∧ p.1.val = v := by
+  obtain ⟨ch, h1, h2, h3, h4⟩ := deliver_mem h
+  exact ⟨ch, h1, h2, h4, fun v hv => group_mem (h3 ▸ hv)⟩
+
+/-! ## (e) devices that reject, lose or do not acknowledge requests -/
+
+/-- whatever the device does with each request (ack / nack / lost / applied-but-ACK-lost, with or without
+    ACK support): in every merge of well-formed calls no section raises and every section lasts at most
+    one ACK timeout (10 tenths of a second); the well-formedness invariant holds at the end -/
+theorem lockstep_any_outcome_safe (d0 : Device) (flags : Nat) (progs : List (List AOp)) (m : List AOp)
+    (hm : Interleaving progs m) (hd : C07.WFDev d0) (hw : ∀ p ∈ progs, ∀ x ∈ p, WellOp d0.en.length x) :
+    (∀ o ∈ (arun (Client.init d0 flags) d0 m).2.2, o.err = none ∧ o.time ≤ 10) ∧
+    Inv (arun (Client.init d0 flags) d0 m).1 (arun (Client.init d0 flags) d0 m).2.1 :=
+  ⟨arun_safe (init_inv d0 flags hd) m (hm.forall _ hw), arun_inv (init_inv d0 flags hd) m⟩
+
+/-- the same with subscribe / unsubscribe / fan-out sections in the merge -/
+theorem xreduction_any_outcome_safe (d0 : Device) (flags : Nat) (progs : List (List XOp)) (m : List XOp)
+    (hm : Interleaving progs m) (hd : C07.WFDev d0) (hw : ∀ p ∈ progs, ∀ x ∈ p, WellXOp d0.en.length x) :
+    ∀ o ∈ (xrun (XState.init d0 flags) m).2, o.err = none ∧ ∀ so, o.cfg = some so → so.err = none ∧ so.time ≤ 10 :=
+  xrun_safe (s := XState.init d0 flags) (init_inv d0 flags hd) (List.length_replicate ..) m (hm.forall _ hw)
+
+/-- on a device with ACK support, at every point of every merge, whatever the outcomes: the answer of
+    `ch_is_enabled` equals the device's state unless an enable request is in doubt (not positively
+    acknowledged since), and likewise for dividers; the client's copy always equals its answers -/
+theorem lockstep_doubt_view (d0 : Device) (flags : Nat) (m : List AOp) (hd : C07.WFDev d0)
+    (hack : Info.ackSupported flags = true) (k : Nat) :
+    let r := arun (Client.init d0 flags) d0 (m.take k)
+    (r.1.enResync = false → ∀ ch, isEnabled r.1 ch = r.2.1.en.getD ch false) ∧
+    (r.1.divResync = false → ∀ ch, divGet r.1 ch = r.2.1.div.getD ch 0) ∧
+    r.1.copyEn = r.1.enNow ∧ r.1.copyDiv = r.1.divNow := by
+  intro r
+  have hS := arun_doubtState (init_doubtState d0 flags hd hack) (m.take k)
+  refine ⟨fun h ch => ?_, fun h ch => ?_, hS.inv.cpEn, hS.inv.cpDiv⟩
+  · show r.1.enNow.getD ch false = _
+    rw [hS.dEn h]
+  · show r.1.divNow.getD ch 0 = _
+    rw [hS.dDiv h]
 
 /-! ## non-vacuity -/
 
@@ -278,10 +562,112 @@ example : (arun (Client.init ⟨[false, false], [0, 0]⟩ 3) ⟨[false, false], 
 /-- non-vacuity of the zero-channel case: a device without channels is well formed … -/
 example : C07.WFDev ⟨[], []⟩ := by simp [C07.WFDev]
 
-/-- … and a merge with writes on it, at both granularities, ends in the empty state -/
-example : (C07.after ⟨[], []⟩ 3 [.enableAll, .write .ack .ack, .disableAll, .write .ack .ack]).2.1 = ⟨[], []⟩ ∧
-    (arun (Client.init ⟨[], []⟩ 3) ⟨[], []⟩ [.wDiv .ack, .query, .wEn .ack, .wDiv .ack, .wEn .ack]).2.1
+/-- … a write on it has no block at all, and a merge with writes on it, at both granularities, ends in the
+    empty state -/
+example : writeBlock 0 true .ack .ack = [] ∧
+    (C07.after ⟨[], []⟩ 3 [.enableAll, .write .ack .ack, .disableAll, .write .ack .ack]).2.1 = ⟨[], []⟩ ∧
+    (arun (Client.init ⟨[], []⟩ 3) ⟨[], []⟩
+      (enableAllBlock 0 ++ writeBlock 0 true .ack .ack ++ [.query] ++ defaultCfgBlock 0 ++ writeBlock 0 true .ack .ack)).2.1
       = ⟨[], []⟩ := by
   decide +kernel
+
+/-- the weaker final-state condition is satisfiable where the old one is not: thread 1 ends with a query
+    and thread 2's write comes last among the setters' followers -/
+example : Interleaving [[AOp.enable [0], .query], [AOp.divider [1] 7, .wDiv .ack, .wEn .ack, .query]]
+    [.enable [0], .divider [1] 7, .wDiv .ack, .wEn .ack, .query, .query] :=
+  .step (pre := []) <| .step (pre := [[_]]) <| .step (pre := [[_]]) <| .step (pre := [[_]]) <|
+    .step (pre := []) <| .step (pre := [[]]) <| .done (by simp)
+
+example : EnClosed [AOp.enable [0], .divider [1] 7, .wDiv .ack, .wEn .ack, .query, .query] ∧
+    DivClosed [AOp.enable [0], .divider [1] 7, .wDiv .ack, .wEn .ack, .query, .query] :=
+  ⟨enClosed_intro [.enable [0], .divider [1] 7, .wDiv .ack] [.query, .query] (.wEn .ack) rfl (by simp [isEnSetter]),
+   divClosed_intro [.enable [0], .divider [1] 7] [.wEn .ack, .query, .query] (.wDiv .ack) rfl (by simp [isDivSetter])⟩
+
+example : (arun (Client.init ⟨[false, false], [0, 0]⟩ 3) ⟨[false, false], [0, 0]⟩
+    [.enable [0], .divider [1] 7, .wDiv .ack, .wEn .ack, .query, .query]).2.1 = ⟨[true, false], [0, 7]⟩ := by
+  decide +kernel
+
+/-- `ch_disable_all` is not atomic: another thread's `ch_enable(0)` + write between its blocks survives it -/
+example : (arun (Client.init ⟨[true, true], [0, 0]⟩ 3) ⟨[true, true], [0, 0]⟩
+    ([.disable [0]] ++ [.enable [0]] ++ [.disable [1]] ++ writeBlock 2 true .ack .ack)).2.1 = ⟨[true, false], [0, 0]⟩ ∧
+    disableAllBlock 2 = [.disable [0], .disable [1]] :=
+  ⟨by decide +kernel, rfl⟩
+
+/-- a schedule with subscriptions and a fan-out between the halves of a write: the stream thread checks
+    channel 0 (already enabled and acknowledged) and channel 1 (enable still buffered), delivers only the
+    sample of channel 0, to both subscribers of channel 0 (queue 1 unsubscribed from channel 1 in between) -/
+example :
+    let r := xrun (XState.init ⟨[true, false], [0, 0]⟩ 3)
+      [.sub 0, .sub 1, .cfg (.enable [1]), .sub 0, .cfg (.wDiv .ack), .fanCheck 0, .fanCheck 1, .unsub 1,
+       .fanDeliver [⟨0, 40⟩, ⟨1, 41⟩], .cfg (.wEn .ack), .fanCheck 1]
+    r.1.d = ⟨[true, true], [0, 0]⟩ ∧ r.1.f.subs = [[0, 2], []] ∧
+    r.2.map (·.puts) = [[], [], [], [], [], [], [], [], [(0, [40]), (2, [40])], [], []] ∧
+    r.2.map (·.ans) = [none, none, none, none, none, some true, some false, none, none, none, some true] ∧
+    r.2.map (·.newQ) = [some 0, some 1, none, some 2, none, none, none, none, none, none, none] := by
+  decide +kernel
+
+/-- the hypotheses of the any-outcome theorems are satisfiable, with a rejected and a lost request -/
+example : WellOp 2 (.enable [0, 1]) ∧ WellOp 2 (.divider [1] 255) ∧ WellOp 2 (.wDiv (.nack 3)) ∧ WellOp 2 (.wEn .lost) ∧
+    WellXOp 2 (.sub 1) := by
+  refine ⟨?_, ⟨?_, by decide, by decide⟩, Nat.succ_ne_zero 1, Nat.succ_ne_zero 1, Nat.lt_succ_self 1⟩ <;>
+    intro c hc <;> simp at hc <;> omega
+
+example : ((arun (Client.init ⟨[false, false], [0, 0]⟩ 3) ⟨[false, false], [0, 0]⟩
+    [.enable [0, 1], .divider [1] 255, .wDiv (.nack 3), .wEn .lost]).2.2.map fun o => (o.err, o.time))
+    = [(none, 0), (none, 0), (none, 0), (none, 10)] := by
+  decide +kernel
+
+/-! ### the extended wait-for graph -/
+
+/-- a thread state the generated table explains: an application thread inside a write, holding the
+    channels lock and waiting (with a timeout) for the ACK on the response queue -/
+example : Fits Gen.Locks.table ⟨.app 0, [.channels], some (.queue .resp true)⟩ where
+  lockSite := fun l h => nomatch h
+  queueSite := fun q b h => by
+    obtain ⟨rfl, rfl⟩ : q = .resp ∧ b = true := by
+      have := Option.some.inj h
+      exact ⟨(Wait.queue.inj this).1.symm, (Wait.queue.inj this).2.symm⟩
+    exact Or.inl (by decide +kernel)
+  joinSite := fun j h => nomatch h
+  body := fun x hx ht => by
+    have key : ∀ x ∈ Gen.Locks.table.threads, x.tid ≠ Tid.app 0 := by decide +kernel
+    exact absurd ht (key x hx)
+
+/-- … the stream thread waiting for the channels lock (its enabled check), holding nothing -/
+example : Fits Gen.Locks.table ⟨.stream, [], some (.lock .channels)⟩ where
+  lockSite := fun l h => by
+    obtain rfl : l = .channels := (Wait.lock.inj (Option.some.inj h)).symm
+    decide +kernel
+  queueSite := fun q b h => nomatch h
+  joinSite := fun j h => nomatch h
+  body := fun x hx ht => by
+    have key : ∀ x ∈ Gen.Locks.table.threads, x.tid = Tid.stream → Lock.channels ∈ x.locks := by decide +kernel
+    refine ⟨fun h hh => (nomatch hh), fun l h => ?_, fun q h => ?_, fun j h => ?_⟩
+    · obtain rfl : l = .channels := (Wait.lock.inj (Option.some.inj h)).symm
+      exact key x hx ht
+    · simp at h
+    · simp at h
+
+/-- … an application thread in `stream_stop`, joining the stream thread, holding nothing -/
+example : Fits Gen.Locks.table ⟨.app 1, [], some (.join .stream)⟩ where
+  lockSite := fun l h => nomatch h
+  queueSite := fun q b h => nomatch h
+  joinSite := fun j h => by
+    obtain rfl : j = .stream := (Wait.join.inj (Option.some.inj h)).symm
+    decide +kernel
+  body := fun x hx ht => by
+    have key : ∀ x ∈ Gen.Locks.table.threads, x.tid ≠ Tid.app 1 := by decide +kernel
+    exact absurd ht (key x hx)
+
+/-- `WDeadlocked` is not vacuous: were the stream thread joined by a thread that holds the queue lock (what
+    `joinsLockFree` excludes), the two would be deadlocked -/
+example : WDeadlocked (producersOf Gen.Locks.table)
+    [⟨.app 0, [.queue], some (.join .stream)⟩, ⟨.stream, [], some (.lock .queue)⟩] := by
+  refine ⟨by simp, fun t ht => ?_⟩
+  rcases List.mem_cons.mp ht with rfl | ht
+  · exact ⟨⟨.stream, [], some (.lock .queue)⟩, by simp, rfl⟩
+  · rcases List.mem_cons.mp ht with rfl | ht
+    · exact ⟨⟨.app 0, [.queue], some (.join .stream)⟩, by simp, by simp⟩
+    · nomatch ht
 
 end Nxs.C12
